@@ -1,5 +1,5 @@
 from __future__ import annotations
-from pyvc.lang import spec
+from pyvc.lang import spec, lemma
 
 # Sequence vocabulary of DESIGN section 3.  Executable Python (lists/tuples) and translated to
 # define-funs-rec by pyvc.speclib.  RecV = Seq[Cell] (value of a record).
@@ -127,3 +127,17 @@ def rep_cells(c: Cell, n: Int) -> Seq[Cell]:
 def sorted_keyset(members: Map[Key, Bool], n: Int) -> Seq[Key]:
     # the n members of a set of group keys in ascending order (what sorted(list(s)) returns; A-SORT)
     raise NotImplementedError
+
+
+@lemma
+def seq_ext_str(a: Seq[Str], b: Seq[Str], m: Int):
+    # extensionality of sequences of strings, by induction on the length: equal lengths and equal elements make equal sequences
+    props('C09')
+    requires(m >= 0 and m == len(a) and len(a) == len(b) and forall(Int, lambda i: implies(0 <= i and i < len(a), a[i] == b[i])))
+    ensures(a == b, 'equal')
+    hint(implies(m > 0, len(a[:m - 1]) == m - 1 and len(b[:m - 1]) == m - 1 and forall(Int, lambda i: implies(0 <= i and i < m - 1, a[:m - 1][i] == a[i] and b[:m - 1][i] == b[i]))))
+    hint(implies(m > 0, a[:m - 1] == b[:m - 1]))
+    hint(implies(m > 0, a == a[:m - 1] + [a[m - 1]] and b == b[:m - 1] + [b[m - 1]]))
+    induct(m)
+    generalize(a, b)
+    measure(m, len(a))
